@@ -75,6 +75,76 @@ type Term struct {
 	name   string // OVar, OApp
 	id     int64
 	h      uint64 // structural hash
+	vb     *varBits
+}
+
+// varBits is the set of nondet variable indices (n<k>_...) occurring in a term; indices >= 512 set over.
+type varBits struct {
+	w    [8]uint64
+	over bool
+}
+
+func (a *varBits) or(b *varBits) {
+	for i := range a.w {
+		a.w[i] |= b.w[i]
+	}
+	a.over = a.over || b.over
+}
+
+func (a *varBits) has(k int) bool {
+	if k < 0 || k >= 512 {
+		return true
+	}
+	return a.w[k/64]&(1<<uint(k%64)) != 0
+}
+
+var emptyVarBits = &varBits{}
+
+func varIndex(name string) int {
+	if len(name) < 2 || name[0] != 'n' {
+		return -1
+	}
+	k := 0
+	i := 1
+	for i < len(name) && name[i] >= '0' && name[i] <= '9' {
+		k = k*10 + int(name[i]-'0')
+		i++
+	}
+	if i == 1 {
+		return -1
+	}
+	return k
+}
+
+// VarBits returns the set of variables of t (computed lazily; benign race, deterministic value).
+func (t *Term) VarBits() *varBits {
+	if t.vb != nil {
+		return t.vb
+	}
+	var r *varBits
+	switch {
+	case t.op == OConst:
+		r = emptyVarBits
+	case t.op == OVar:
+		r = &varBits{}
+		k := varIndex(t.name)
+		if k < 0 || k >= 512 {
+			r.over = true
+		} else {
+			r.w[k/64] |= 1 << uint(k%64)
+		}
+	case len(t.args) == 0:
+		r = emptyVarBits
+	case len(t.args) == 1:
+		r = t.args[0].VarBits()
+	default:
+		r = &varBits{}
+		for _, a := range t.args {
+			r.or(a.VarBits())
+		}
+	}
+	t.vb = r
+	return r
 }
 
 var termSeq int64
@@ -371,6 +441,9 @@ func Eq(a, b *Term) *Term {
 		}
 		return Eq(in, BV(in.sort, b.val))
 	}
+	if b.op == OConst && a.op == OIte && (a.args[1].op == OConst || a.args[2].op == OConst) && !(a.args[1].op == OConst && a.args[2].op == OConst) {
+		return Ite(a.args[0], Eq(a.args[1], b), Eq(a.args[2], b))
+	}
 	// ite(c, k1, k2) == k  with constants
 	if b.op == OConst && a.op == OIte && a.args[1].op == OConst && a.args[2].op == OConst {
 		e1 := a.args[1].val == b.val
@@ -607,9 +680,34 @@ func BvNeg(a *Term) *Term {
 	return newTerm(ONeg, a.sort, a)
 }
 
+// constLeafIte reports whether t is a constant or an ite tree (depth <= 6) whose leaves are constants
+// for at least one branch at every level (so lifting a comparison into it folds away).
+func constLeafIte(t *Term, depth int) bool {
+	if t.op == OConst {
+		return true
+	}
+	if t.op != OIte || depth == 0 {
+		return false
+	}
+	l, r := t.args[1], t.args[2]
+	if l.op == OConst {
+		return r.op == OConst || r.op == OIte && constLeafIte(r, depth-1) || true
+	}
+	if r.op == OConst {
+		return true
+	}
+	return false
+}
+
 func Cmp(op Op, a, b *Term) *Term {
 	if a.sort != b.sort || a.sort <= 0 {
 		panic(fmt.Sprintf("cmp %s sorts: %v %v", opName[op], a.sort, b.sort))
+	}
+	if a.op == OIte && b.op == OConst && (a.args[1].op == OConst || a.args[2].op == OConst) {
+		return Ite(a.args[0], Cmp(op, a.args[1], b), Cmp(op, a.args[2], b))
+	}
+	if b.op == OIte && a.op == OConst && (b.args[1].op == OConst || b.args[2].op == OConst) {
+		return Ite(b.args[0], Cmp(op, a, b.args[1]), Cmp(op, a, b.args[2]))
 	}
 	if a.op == OConst && b.op == OConst {
 		switch op {
